@@ -77,7 +77,7 @@ def cdcnLine (j : Json) : String :=
   let env : Env := { stackSize := Generated.parserStackSize, nlines := nat j "nlines",
                      conv := fun t => ((table.find? (fun e => e.1 == (t.line, t.pos))).map (·.2)).getD none,
                      mkSet := mkSetModel }
-  let m := parseTokens env (4 * toks.length + 16) toks
+  let m := parseTokens env (8 * toks.length + 16) toks
   let pj := fld j "parse"
   let out := str pj "out"
   let implV := parseVal (fld pj "v")
@@ -178,7 +178,7 @@ def rtLine (j : Json) : String :=
   let env : Env := { stackSize := Generated.parserStackSize, nlines := nat j "nlines",
                      conv := fun t => ((table.find? (fun e => e.1 == (t.line, t.pos))).map (·.2)).getD none,
                      mkSet := mkSetModel }
-  let pm := parseTokens env (4 * toks.length + 16) toks
+  let pm := parseTokens env (8 * toks.length + 16) toks
   let pj := fld j "parse"
   let out := str pj "out"
   let implV := parseVal (fld pj "v")
